@@ -59,7 +59,7 @@ def run(ctx):
     model_in = [[c["nw"], len(c["ns"])] + c["ns"] + c["sched"] for c in cases]
     model = fw.run_model("c49", "run_c49", model_in)
     lines = ["%d %d %d %s %d" % (c["mode"], c["nw"], len(c["ns"]), " ".join(map(str, c["ns"])), c["jitter"]) for c in cases]
-    rc, impl, err = fw.run_lines(drv, ["--log=root.thres:critical"], lines, timeout=ctx.n(600, 3000))
+    rc, impl, err = fw.run_lines(drv, ["--log=root.thres:critical"], lines, timeout=ctx.n(1800, 5400))
     dist = {"posix": 0, "futex": 0, "busy_wait": 0, "applies": 0, "elements": 0, "threads": {}}
     if rc != 0 or len(impl) != len(cases):
         k = min(len(impl), len(cases) - 1)
